@@ -1,0 +1,87 @@
+// This Source Code Form is subject to the terms of the Mozilla Public
+// License, v. 2.0. If a copy of the MPL was not distributed with this
+// file, You can obtain one at http://mozilla.org/MPL/2.0/.
+
+//go:build verif
+
+package containers
+
+// Contracts for the deductive verifier in /verif (govc). Comment-only file: it
+// adds no code. Lines starting with //@ are parsed by govc; see /verif/DESIGN.md.
+
+// C09: the set of items being processed (the queue's "on hold" set). It holds no item twice; Add
+// refuses an item that is present, Remove takes out exactly the item asked for and reports whether it
+// was there. The element type is a type parameter: the proofs hold for every comparable type.
+//@ pred noDup(s *SliceSet[T]) := forall i int, j int :: 0 <= i && i < j && j < len(s.items) ==> s.items[i] != s.items[j]
+//@ pred has(s *SliceSet[T], x T) := exists i int :: 0 <= i && i < len(s.items) && s.items[i] == x
+//@
+//@ func (*SliceSet[T]).Add
+//@   props C09
+//@   requires [set] set != nil && noDup(set) && set.items.blk != set.blk
+//@   ensures [no-duplicates] noDup(set)
+//@   ensures [added-iff-absent] result <==> !old(has(set, item))
+//@   ensures [present-afterwards] has(set, item)
+//@   ensures [size] len(set.items) == old(len(set.items)) + ite(result, 1, 0)
+//@   ensures [others-kept] forall k int :: 0 <= k && k < old(len(set.items)) ==> set.items[k] == old(set.items[k])
+//@
+//@ func (*SliceSet[T]).Contains
+//@   props C09
+//@   pure
+//@   requires [set] set != nil
+//@   ensures [membership] result <==> has(set, item)
+//@
+//@ func (*SliceSet[T]).Remove
+//@   props C09
+//@   requires [set] set != nil && noDup(set) && set.items.blk != set.blk
+//@   ensures [no-duplicates] noDup(set)
+//@   ensures [removed-iff-present] found <==> old(has(set, item))
+//@   ensures [absent-afterwards] !has(set, item)
+//@   ensures [size] len(set.items) == old(len(set.items)) - ite(found, 1, 0)
+//@
+//@ func (*SliceSet[T]).Len
+//@   props C09
+//@   pure
+//@   requires [set] set != nil
+//@   ensures [len] result == len(set.items)
+//@
+// C09: the pending queue deduplicates by key: no key is queued twice, whatever the release times.
+// slices.IndexFunc / BinarySearchFunc are higher-order; what they return for the closures used here
+// is described at the call sites (assumptions).
+//@ pred uniqKeys(q *PriorityQueue[K, V]) := forall i int, j int :: 0 <= i && i < j && j < len(q.items) ==> q.items[i].Key != q.items[j].Key
+//@ pred hasKey(q *PriorityQueue[K, V], k K) := exists i int :: 0 <= i && i < len(q.items) && q.items[i].Key == k
+//@
+//@ func (*PriorityQueue[K, V]).Push
+//@   props C09
+//@   requires [queue] queue != nil && uniqKeys(queue) && queue.items.blk != queue.blk
+//@   at IndexFunc #1
+//@     assume_result [index-by-key] -1 <= result && result < len(queue.items) && (result >= 0 ==> queue.items[result].Key == key) &&
+//@       (result == -1 ==> (forall k int :: 0 <= k && k < len(queue.items) ==> queue.items[k].Key != key))
+//@   at BinarySearchFunc #1
+//@     assert [still-unique] uniqKeys(queue)
+//@     assert [key-absent-before-insert] forall k int :: 0 <= k && k < len(queue.items) ==> queue.items[k].Key != key
+//@     assume_result [binary-search] 0 <= result0 && result0 <= len(queue.items)
+//@   ensures [dedup-by-key; using still-unique, key-absent-before-insert, insert-elements, insert-shape, binary-search] uniqKeys(queue)
+//@   ensures [queued] hasKey(queue, key)
+//@   ensures [added-iff-new] result <==> !old(hasKey(queue, key))
+//@   ensures [size] len(queue.items) == old(len(queue.items)) + ite(result, 1, 0)
+//@
+//@ func (*PriorityQueue[K, V]).Push$1
+//@   props C09
+//@ func (*PriorityQueue[K, V]).Push$2
+//@   props C09
+//@
+//@ func (*PriorityQueue[K, V]).Peek
+//@   props C09
+//@   requires [queue] queue != nil
+//@   ensures [empty-queue-yields-nothing] len(queue.items) == 0 ==> !key.present && !value.present && nextDelay == 0
+//@
+//@ func (*PriorityQueue[K, V]).Pop
+//@   props C09
+//@   requires [queue] queue != nil && len(queue.items) > 0 && uniqKeys(queue) && queue.items.blk != queue.blk
+//@   ensures [popped] len(queue.items) == old(len(queue.items)) - 1 && uniqKeys(queue)
+//@
+//@ func (*PriorityQueue[K, V]).Len
+//@   props C09
+//@   pure
+//@   requires [queue] queue != nil
+//@   ensures [len] result == len(queue.items)
